@@ -563,12 +563,12 @@ func genBench(t *rapid.T) Row {
 	if rapid.IntRange(0, 3).Draw(t, "extra") == 0 {
 		rest += fmt.Sprintf(" %d B/op", rapid.IntRange(0, 64).Draw(t, "bop"))
 	}
-	return Row{K: 0, A: name, B: rest}
+	return Row{K: 0, A: name, B: rest, Tab: rapid.IntRange(0, 7).Draw(t, "tabs") == 0}
 }
 
 func genFile(t *rapid.T, maxLines int, wide bool) File {
 	var f File
-	f.Name = rapid.SampledFrom([]string{"", "a.txt", "bench.out", "r 1.txt", "x"}).Draw(t, "fname")
+	f.Name = rapid.SampledFrom([]string{"", "a.txt", "bench.out", "r 1.txt", "x", "load-50%.txt", "%d%s.txt"}).Draw(t, "fname")
 	if wide {
 		n := rapid.IntRange(40, 60).Draw(t, "nwide")
 		for i := 0; i < n; i++ {
@@ -636,7 +636,7 @@ func uniform(t *rapid.T, n int, label string) int {
 // the offsets within 3 bytes of a part boundary or line end.
 func Gen(t *rapid.T) Case {
 	var c Case
-	c.User = rapid.SampledFrom([]string{"", "user", "alice"}).Draw(t, "user")
+	c.User = rapid.SampledFrom([]string{"", "user", "alice", "100%bob"}).Draw(t, "user")
 	c.Store = rapid.SampledFrom([]string{"mem", "mem", "mem", "local"}).Draw(t, "store")
 	nh := rapid.IntRange(0, 3).Draw(t, "nhist")
 	for i := 0; i < nh; i++ {
